@@ -7,6 +7,16 @@ resource lookup and every known registration resource are fetched, parsed by the
 (harness/reflink.py) and compared with a response-driven reference model (harness/c20_ref.py): the model applies a
 request iff the directory answered 2.xx.
 
+Registrations are made both ways the directory offers: with a link-format body to the registration resource, and by
+simple registration (RFC 9176 5.1; rd.py SimpleRegistration / SimpleRegistrationWKC): a POST without body to
+/.well-known/rd (or aiocoap's legacy /.well-known/core), upon which the directory -- composed with its own context as
+cli/rd.py Main does -- fetches /.well-known/core from the registrant. The raw registrants serve that fetch themselves
+(Runner._serve) with a scripted reaction: link-format (piggybacked, separate, after a lost first transmission, or
+block-wise), an empty link list, an error code (with or without a link-format body), a wrong or missing
+Content-Format, an unparsable payload, a Reset, or nothing at all. A simple registration is a registration like any
+other in the model: it takes the links that were fetched, the registrant's address as base, the location the
+(ep, d) had before, and its lifetime runs from some instant between the POST and the directory's answer (Reg.slack).
+
 Where the unchanged tree deviates in an already understood way the deviation is reported under its mechanism key and the
 model is re-synchronised to the observed state, so that the rest of the history is still judged.
 """
@@ -17,37 +27,52 @@ ID = "C20"
 LEVEL = "exploration"
 TECHNIQUE = (
     "runtime monitoring on a virtual-time simulated network: the real RD site in a real server Context, 1-3 raw registrants; generated "
-    "histories of register / re-register / POST and PUT update / DELETE / filtered and paged lookups / idle steps across lt and lt+grace, with "
-    "valid and invalid parameters; oracle = response-driven reference model keyed by (ep, d), compared after every step with endpoint lookup, "
+    "histories of register / re-register (with body, and by simple registration where the directory fetches /.well-known/core from the raw "
+    "registrant, which answers with link-format piggybacked / separate / after a lost transmission / block-wise, an empty list, an error, a wrong or "
+    "missing Content-Format, garbage, a Reset or not at all) / POST and PUT update / DELETE / filtered and paged lookups / idle steps across lt and "
+    "lt+grace, with valid and invalid parameters; oracle = response-driven reference model keyed by (ep, d), compared after every step with endpoint lookup, "
     "resource lookup and every registration resource as parsed by an independent RFC 6690 parser and RFC 3986 resolver"
 )
 LEVEL_TEXT = (
     "After every step of every history the complete externally visible state of the directory (both lookups and all known registration "
     "resources, live and freed) is compared with the model; a request answered 4.xx must leave that state identical, a 2.01 must obey the "
-    "location rules, and liveness must follow last successful write + lt + grace on the virtual clock."
+    "location rules (for a simple registration, whose 2.04 names no location, on the location the endpoint lookup shows for that (ep, d)), and "
+    "liveness must follow last successful write + lt + grace on the virtual clock."
 )
 LEVEL_NOTE = (
     "Trusted: harness/c20_ref.py (model, RFC 3986 resolution), harness/reflink.py, simnet, refcodec. lt is not visible in lookups (RFC 9176 6.3), "
     "so a lifetime changed by a rejected request is only seen at the next boundary crossing (when several rejected requests could explain it the "
     "violation is filed under the first of ALT_ORDER and the witness lists all); instants within 0.5 s of a model boundary are not sampled. "
+    "A simple registration is carried out at some instant between the registrant's POST and the directory's answer (up to 93 s when the fetch is "
+    "not answered): the model's clock follows the virtual clock, what ran out meanwhile is gone, the new lifetime is taken from the answer and the "
+    "interval [POST, answer] + lt + grace is not sampled; whether a registration that ran out during the fetch was re-registered or created anew is "
+    "left open. A registrant that does not answer the fetch may itself be left without an answer (aiocoap stops serving a peer it found "
+    "unreachable; counted as simple_registration_unanswered_after_unanswered_fetch): the directory must then look unchanged (keys unanswered-*/...); "
+    "no answer although the registrant answered the fetch is a violation (no-response/...). An accepted simple registration whose fetch was not "
+    "answered with usable link-format, or that carried base / proxy, has no defined meaning: counted, history ended, pinned by the fixed script. "
     "Re-use of a freed location for a later registration of another (ep, d) is counted, not judged (JUDGE_LOCATION_REUSE). 5.xx answers are counted "
     "and the model is re-synchronised from the observation (the statement speaks about 4.xx). Acceptance is pinned by a fixed script only. "
     "Understood deviations (mechanism keys rejected-*/..., expiry/lifetime-set-by-rejected-*, lookup-res/links-not-resolved-against-base) "
     "re-synchronise the model to the observed state so that the rest of the history is still judged; any other difference ends the history."
 )
 RULE = (
-    "one case = one history of 5-40 steps over <=4 endpoint names x <=2 sectors from <=3 registrants (plus 9 fixed scripts in shard 0). "
-    "Non-trivial = the history contains a re-registration, a rejected write to a live registration, an observed expiry or a request to a freed "
-    "location; distinct = distinct sequences of (operation class, parameter variant, body variant, response class)"
+    "one case = one history of 5-40 steps over <=4 endpoint names x <=2 sectors from <=3 registrants (plus 10 fixed scripts in shard 0); about an "
+    "eighth of the steps are simple registrations (10 reactions of the registrant to the directory's fetch x 5 ways of delivering an answer). "
+    "Non-trivial = the history contains a re-registration (either way), a rejected write to a live registration, an observed expiry or a request to a "
+    "freed location; distinct = distinct sequences of (operation class, parameter variant, body variant or fetch reaction and delivery, response class)"
 )
 ASSUMPTIONS = [
     "grace period read from CommonRD.Registration.grace_period at run time; default lifetime 90000 s (RFC 9176)",
     "paths of the directory and lookup resources are taken from GET /.well-known/core?rt=core.rd*",
     "requests are processed one at a time (a registrant waits for each response)",
+    "the directory answers a simple registration within 100 s (it gives up on an unanswered fetch after at most MAX_TRANSMIT_WAIT = 93 s, RFC 7252 4.8.2)",
+    "the directory fetches /.well-known/core anew for every simple registration (rd.py: 'Simple registrations don't cache'); an accepted one without a fetch ends the history uninterpreted",
 ]
 REQUIRED_MONITORS = {
-    "quick": {"lookup_ep_matches_model": 15000, "lookup_res_matches_model": 15000, "registration_resource_matches_model": 25000, "unchanged_after_4xx": 6000, "location_rules": 3000, "expiry": 4000, "acceptance_pins": 12, "lookup_filter": 1500, "pagination": 500},
-    "thorough": {"lookup_ep_matches_model": 500000, "lookup_res_matches_model": 500000, "registration_resource_matches_model": 800000, "unchanged_after_4xx": 200000, "location_rules": 100000, "expiry": 120000, "acceptance_pins": 12, "lookup_filter": 50000, "pagination": 15000},
+    # simple_registration: simple-registration steps whose outcome was compared with the model; _listed: those answered 2.xx (fetched links,
+    # base, location, lifetime judged); _failed_fetch: those whose fetch got no usable link-format and that were not answered 2.xx
+    "quick": {"lookup_ep_matches_model": 15000, "lookup_res_matches_model": 15000, "registration_resource_matches_model": 25000, "unchanged_after_4xx": 6000, "location_rules": 3000, "expiry": 4000, "acceptance_pins": 30, "lookup_filter": 1500, "pagination": 500, "simple_registration": 2500, "simple_registration_listed": 1000, "simple_registration_failed_fetch": 1000},
+    "thorough": {"lookup_ep_matches_model": 500000, "lookup_res_matches_model": 500000, "registration_resource_matches_model": 800000, "unchanged_after_4xx": 200000, "location_rules": 100000, "expiry": 120000, "acceptance_pins": 30, "lookup_filter": 50000, "pagination": 15000, "simple_registration": 100000, "simple_registration_listed": 40000, "simple_registration_failed_fetch": 40000},
 }
 
 JUDGE_LOCATION_REUSE = False  # see do_reg: count (False) or report (True) the re-use of a freed location for another (ep, d)
@@ -1029,6 +1054,14 @@ class Runner:
                 self.viol("lookup-ep/unusable-after-" + opclass, "the endpoint lookup after an accepted simple registration: %s" % (listed,))
                 raise Stop
             mine = [self.norm_href(l.href) for l in listed if self.reflink.targets(l, "ep") == [ep] and (self.reflink.targets(l, "d") == ([d] if d is not None else []))]
+            if not mine and t_lo + self._alt_lt(q, ref.DEFAULT_LT) + self.grace < t_hi + 0.5:
+                # the fetch took longer than lt + grace: counted from the POST the registration has run out already
+                rep.count("simple_registration_ran_out_during_fetch")
+                if old is not None:
+                    self.model.remove(old)
+                await self.settle()
+                await self.sweep(ctx)
+                return
             if not mine:
                 self.viol("lookup-ep/missing-after-" + opclass, "a simple registration of %r was answered %s, but the endpoint lookup does not list it" % (key, code_str), lookup=ref.canon_ep(listed)[:8])
                 raise Stop
